@@ -302,6 +302,7 @@ pub fn expr_alts() -> Vec<EAlt> {
     v.push(ealt("Variable.error", &[], |_| nodep("Variable", 2, vec![T("error")])));
     v.push(ealt("Variable.revert", &[], |_| nodep("Variable", 2, vec![T("revert")])));
     v.push(ealt("Variable.switch", &[], |_| var("switch")));
+    v.push(ealt("Variable.unicode", &[], |_| var("é")));
     v.push(ealt("This", &[], |_| nodep("This", 0, vec![T("this")])));
     v.push(ealt("BoolLiteral.true", &[], |_| nodep("BoolLiteral", 0, vec![T("true")])));
     v.push(ealt("BoolLiteral.false", &[], |_| nodep("BoolLiteral", 0, vec![T("false")])));
@@ -473,6 +474,8 @@ pub fn expr_alts() -> Vec<EAlt> {
         call(var("selfdestruct"), vec![call(ty("payable"), vec![member(var("msg"), "sender")])])
     }));
     v.push(atom("atom.selfdestruct_empty", |_| call(var("selfdestruct"), vec![])));
+    v.push(atom("atom.unicode_transfer", |_| call(member(var("émetteur"), "transfer"), vec![var("ü")])));
+    v.push(atom("atom.unicode_postinc", |_| nodep("PostIncrement", 0, vec![C(var("zähler")), T("++")])));
     v.push(atom("atom.x_add_empty", |_| call(member(var("p"), "add"), vec![])));
     v
 }
